@@ -447,7 +447,11 @@ func (ex *Exec) doNext(st *State, fr *Frame, x *ssa.Next) {
 func (ex *Exec) doMakeSlice(st *State, fr *Frame, x *ssa.MakeSlice) {
 	ln := toIdx(ex.val(fr, x.Len), x.Len.Type())
 	cp := toIdx(ex.val(fr, x.Cap), x.Cap.Type())
-	ex.oblige(st, fr, "makeslice", x.Pos(), "", and(app("bvsle", z64(), ln), app("bvsle", ln, cp), app("bvsle", cp, bvInt(1<<46, 64))))
+	// negative or inconsistent sizes panic; sizes beyond available memory are a
+	// resource failure that is not modelled (listed)
+	ex.oblige(st, fr, "makeslice", x.Pos(), "", and(app("bvsle", z64(), ln), app("bvsle", ln, cp)))
+	ex.assume(st, app("bvsle", cp, bvInt(1<<46, 64)))
+	ex.vc.Trust("allocation sizes are assumed to fit in memory (make with a huge length is a resource failure, not modelled)")
 	fr.regs[x] = ex.newSlice(st, x.Type(), ln, cp, "make")
 }
 
